@@ -64,7 +64,7 @@ func lineFor(out string, row string) string {
 // made concrete (literals of the witnessed kinds), run through the real ti, and the row the
 // violated assertion is about is compared with the expectation computed by the harness.
 func replayKindsProgram(n *Native, job *Job, v *Violation) (ReplayResult, bool) {
-	if v.Kind != "assert" {
+	if v.Kind != "assert" || job.Replay == "kernel" {
 		return ReplayResult{}, false
 	}
 	src, ok := v.Witness["src"]
@@ -314,4 +314,37 @@ func replayDemand(n *Native, job *Job, v *Violation) (ReplayResult, bool) {
 		return ReplayResult{Cmd: "ti ./a.rb", Reproduced: bad, Observed: fmt.Sprintf("row %s: native reports %q, the property demands a diagnostic", row, got)}, true
 	}
 	return replayKindsProgram(n, job, v)
+}
+
+// replayExtraConfig re-judges a C20 counterexample natively: the program under the job's
+// configuration vs. the same configuration plus the witnessed extra file.
+func replayExtraConfig(n *Native, job *Job, v *Violation) (ReplayResult, bool) {
+	src, ok := v.Witness["src"]
+	extra, ok2 := v.Witness["extra-config"]
+	if v.Kind != "assert" || !ok || !ok2 {
+		return ReplayResult{}, false
+	}
+	conc, okc := concretizeSym(src, v.Witness)
+	if !okc {
+		return ReplayResult{Observed: "cannot make the skeleton concrete"}, true
+	}
+	base := filepath.Join(configRoot(job.Config), ".ti-config")
+	dir, _ := os.MkdirTemp(n.Dir, "cfg-extra-")
+	ents, _ := os.ReadDir(base)
+	for _, e := range ents {
+		real, err := filepath.EvalSymlinks(filepath.Join(base, e.Name()))
+		if err == nil {
+			os.Symlink(real, filepath.Join(dir, e.Name()))
+		}
+	}
+	os.WriteFile(filepath.Join(dir, "zz_extra.json"), []byte(extra), 0o644)
+	args := []string{"./a.rb"}
+	if fl := v.Witness["flags"]; fl != "" {
+		args = append(args, strings.Fields(fl)...)
+	}
+	outA, _, _ := n.RunTi(map[string]string{"a.rb": conc}, args, base)
+	outB, _, _ := n.RunTi(map[string]string{"a.rb": conc}, args, dir)
+	v.Witness["native-program"] = conc
+	return ReplayResult{Cmd: "ti " + strings.Join(args, " ") + " with and without .ti-config/zz_extra.json", Reproduced: outA != outB,
+		Observed: fmt.Sprintf("without the extra file: %q; with it: %q", outA, outB)}, true
 }
